@@ -237,6 +237,12 @@ class Obligations:
             if cid in self.w.bodies and cid not in stack:
                 targets.append((cid, "closure"))
         okv = errv = False
+        from .flow import always_calls
+        for cid, kind in targets:
+            if kind == "closure" and not is_once_combinator(t):
+                continue
+            if O and always_calls(self.w, self.w.bodies[cid], spec.release):
+                O = False
         for cid, kind in targets:
             so, se, inner = self.summary(cid, stack)
             okv = okv or so
